@@ -235,7 +235,9 @@ PROPS['C02'] = {
             'reset the cache first if resetCaches() was called, to cross a boundary (newTransaction) unless the manager is '
             'explicit, and to REGISTER the connection for the manager\'s later boundaries; afterCompletion proved to be a '
             'boundary in implicit mode; Connection.setstate proved to take state AND serial of an object from ONE load '
-            'through the connection\'s storage (and a Blob\'s committed file under the same oid and serial).',
+            'through the connection\'s storage (and a Blob\'s committed file under the same oid and serial); '
+            'Connection._commit_savepoint proved to list every oid of the savepoint index as modified BEFORE the first '
+            'store, so that a conflict half-way still lets the abort forget every cached state of the transaction.',
     'note': 'NOT covered: the schedule quantifier. Lock-protected regions are treated as atomic (T3); a breakage '
             'visible only as a race that keeps every sequential contract and lock-ownership obligation true is not '
             'detected by this family. The instance registry is unrolled with three members. FilePool is an assumed '
@@ -257,7 +259,8 @@ PROPS['C15'] = {
                   'connection (partner bound, partner read-only, partner database idle since)'},
     ],
     'text': 'getTID proved: at (8 bytes) maps to the next stamp after at, before to itself, both to ValueError, '
-            'datetimes are converted through their UTC time tuple; the historical adapter (built by running its '
+            'datetimes are converted through their UTC time tuple and then treated exactly like raw tids (at: the next '
+            'stamp after the moment, before: the moment itself); the historical adapter (built by running its '
             'real constructor) proved to load exactly loadBefore(oid, before)[:2] with POSKeyError for None, to '
             'report no invalidations, and new_oid/pack/store to raise ReadOnlyError; the bound is assigned only in '
             'the constructor (module-wide frame); lemma: commits made later have tids not below the bound; DB.open proved '
